@@ -15,7 +15,7 @@ import itertools
 from mc.models import seqtypes as ST
 
 NS = {'p': 'urn:p'}
-DOC = '<a id="1"><b>t</b><!--c--><?t d?></a>'
+DOC = '<a id="1"><b>t</b><!--c--><?t d?><n xmlns:xsi="http://www.w3.org/2001/XMLSchema-instance" xsi:nil="true"/></a>'
 
 ATOMS = [
     ('string', 'xs:string("a")'), ('normalizedString', 'xs:normalizedString("a")'), ('token', 'xs:token("a")'), ('language', 'xs:language("en")'), ('NMTOKEN', 'xs:NMTOKEN("a")'),
@@ -38,6 +38,9 @@ FUNCS = [
     ('function() as xs:integer { 1 }', ('function', [], P('xs:integer'))),
     ('function($x as xs:int, $y as node()*) as element()? { () }', ('function', [P('xs:int'), P('node()*')], P('element()?'))),
     ('true#0', ('function', [], P('xs:boolean'))),
+    ('function($f as function(xs:integer) as xs:int) as xs:integer { 1 }', ('function', [P('function(xs:integer) as xs:int')], P('xs:integer'))),
+    ('function() as function(xs:integer) as xs:int { function($x as xs:integer) as xs:int { xs:int($x) } }', ('function', [], P('function(xs:integer) as xs:int'))),
+    ('function() as function(xs:integer) as xs:integer { function($x as xs:integer) as xs:integer { $x } }', ('function', [], P('function(xs:integer) as xs:integer'))),
 ]
 A = lambda t: ('atomic', t)     # noqa
 MAPS = [
@@ -52,17 +55,19 @@ ARRAYS = [
 NODES = [
     ('/', ('node', 'document', None, ('node', 'element', 'a'))), ('/a', ('node', 'element', 'a')), ('/a/b', ('node', 'element', 'b')), ('/a/@id', ('node', 'attribute', 'id')),
     ('/a/b/text()', ('node', 'text', None)), ('/a/comment()', ('node', 'comment', None)), ('/a/processing-instruction()', ('node', 'processing-instruction', 't')),
-    ('/a/namespace::xml', ('node', 'namespace', 'xml')),
+    ('/a/namespace::xml', ('node', 'namespace', 'xml')), ('/a/n', ('node', 'element', 'n', 'nilled')),
 ]
 CORE = ['1', "'a'", 'xs:int("1")', 'xs:untypedAtomic("a")', '1.5', '/a', '/a/@id', '/a/b/text()', 'abs#1', 'map { "a" : 1 }', '[ 1 , 2 ]', 'xs:date("2000-01-01")']
 
 OCC = ['', '?', '*', '+']
 KIND_TESTS = ['item()', 'node()', 'text()', 'comment()', 'namespace-node()', 'processing-instruction()', 'processing-instruction(t)', 'processing-instruction("t")', 'processing-instruction(u)',
               'document-node()', 'document-node(element(a))', 'document-node(element(b))', 'document-node(element(*))', 'element()', 'element(*)', 'element(a)', 'element(b)',
-              'element(a, xs:untyped)', 'element(*, xs:untyped)', 'attribute()', 'attribute(*)', 'attribute(id)', 'attribute(k)', 'attribute(id, xs:untypedAtomic)']
+              'element(a, xs:untyped)', 'element(*, xs:untyped)', 'element(n)', 'element(n, xs:untyped)', 'element(n, xs:untyped?)', 'element(*, xs:untyped?)', 'attribute()', 'attribute(*)', 'attribute(id)', 'attribute(k)', 'attribute(id, xs:untypedAtomic)']
 FUNC_TESTS = ['function(*)', 'function(xs:integer) as xs:string', 'function(xs:int) as xs:string?', 'function(xs:decimal) as xs:string', 'function(xs:integer) as xs:NCName',
               'function(xs:integer, xs:integer) as xs:string', 'function(xs:integer) as item()*', 'function() as xs:integer', 'function() as item()*', 'function(item()*) as item()*',
-              'function(xs:numeric?) as xs:numeric?', 'function(xs:double) as xs:anyAtomicType?', 'function(xs:string?) as xs:integer', 'function(xs:int, node()*) as element()?',
+              'function(xs:numeric?) as xs:numeric?', 'function(function(xs:integer) as xs:int) as xs:integer', 'function(function(xs:integer) as xs:integer) as xs:integer',
+              'function(function(xs:int) as xs:int) as xs:integer', 'function() as function(xs:integer) as xs:int', 'function() as function(xs:integer) as xs:integer',
+              'function() as function(xs:int) as xs:decimal', 'function(xs:double) as xs:anyAtomicType?', 'function(xs:string?) as xs:integer', 'function(xs:int, node()*) as element()?',
               'map(*)', 'map(xs:string, xs:integer)', 'map(xs:integer, item()*)', 'map(xs:anyAtomicType, xs:string+)', 'map(xs:date, empty-sequence())',
               'array(*)', 'array(xs:integer)', 'array(xs:integer?)', 'array(item()*)', 'array(xs:string?)', 'array(array(xs:integer))', 'array(xs:integer+)']
 SPACED = ['element( a )', 'element ( * )', 'xs:integer ?', 'xs:integer +', 'item ( ) *', 'attribute( id )', 'map( xs:string , xs:integer )', 'array( xs:integer ) ?', 'function( * )',
@@ -231,6 +236,8 @@ def run_matching(unit, tier, acc):
 def sub_types(tier):
     ts = ['xs:%s%s' % (n, o) for n in ('integer', 'int', 'decimal', 'numeric', 'anyAtomicType', 'string', 'NCName', 'untypedAtomic', 'date') for o in OCC]
     ts += [t + o for t in ('item()', 'node()', 'element()', 'element(a)', 'element(b)', 'attribute()', 'attribute(id)', 'text()', 'document-node()', 'document-node(element(a))') for o in OCC]
+    ts += ['function(function(xs:integer) as xs:int) as xs:integer', 'function(function(xs:integer) as xs:integer) as xs:integer', 'function() as function(xs:integer) as xs:int',
+           'function() as function(xs:integer) as xs:integer', 'function(xs:integer) as xs:integer', 'function(xs:integer) as xs:int']
     ts += ['function(*)', 'function(xs:integer) as xs:string', 'function(xs:int) as xs:string?', 'function(xs:integer) as item()*', 'function(item()*) as item()*', 'function() as xs:integer',
            'map(*)', 'map(xs:string, xs:integer)', 'map(xs:anyAtomicType, item()*)', 'map(xs:string, xs:int)', 'array(*)', 'array(xs:integer)', 'array(xs:int)', 'array(item()*)',
            'map(*)?', 'array(*)*', 'function(*)+', 'empty-sequence()']
@@ -308,7 +315,9 @@ def run_subtyping(unit, tier, acc):
     acc.sample({'S': 'xs:int', 'T': 'xs:integer?', 'U': 'item()*', 'rule': 'reflexive, transitive, and V matches S, S <= T implies V matches T'}, limit=1)
 
 
-SIG_ARGS = ['()', '0', '-1', '1.5', '1e0', "''", "'a'", '(1, 2)', 'xs:date("2000-01-01")', 'xs:dayTimeDuration("PT0S")', 'true()', '/', '//b', '@id', 'xs:untypedAtomic("1")', 'xs:QName("p:a")']
+SIG_ARGS = ['()', '0', '-1', '1.5', '1e0', "''", "'a'", '(1, 2)', 'xs:date("2000-01-01")', 'xs:dayTimeDuration("PT0S")', 'true()', '/', '//b', '@id', 'xs:untypedAtomic("1")', 'xs:QName("p:a")',
+            'xs:dayTimeDuration("-P1DT5H30M4.5S")', 'xs:duration("-P1Y2M3DT4H5M6.5S")', 'xs:yearMonthDuration("-P14M")', 'xs:dateTime("2000-01-01T12:30:45.5-05:00")', 'xs:time("12:30:45.5+01:00")',
+            'xs:float("1.5")', '-1.5e0', 'xs:int("-3")']
 SIG_ARGS31 = ['map { "a" : 1 }', '[ 1 , 2 ]', 'abs#1']
 SIG_ARGS3 = ['()', '0', "'a'", '(1, 2)', '/', 'true()']
 
